@@ -523,6 +523,16 @@ def _is_empty_call_defect(obs, case, exc):
           and 'last() was called on an empty iterable' in str(exc))
 
 
+def _report_characterised(ctx, mech, kind, case, detail, keep=2):
+  """A defect whose mechanism is already pinned down: every hit is counted
+  ('viol:<mechanism>'), only the first `keep` per chunk are kept as witnesses so
+  that they cannot crowd out a new violation class."""
+  seen = ctx.counters.get('viol:' + mech, 0)
+  ctx.count('viol:' + mech)
+  if seen < keep:
+    ctx.violation(kind, case, detail, mechanism=mech)
+
+
 def _slicer_kind_of(case, key):
   from vlib.oracles import c02_model as M
   if key[1] is None:
@@ -606,11 +616,11 @@ def check_case(ctx, case, want_override=None, tag=None):
       got = M.canon_result(raw, self_output)
     except Exception as e:  # pylint: disable=broad-exception-caught
       if _is_empty_call_defect(obs, case, e):
-        ctx.count('viol:call-empty-input-iterator')
-        ctx.violation('raised_on_empty_stream', dict(case, _obs=obs),
-                      {'obs': obs, 'error': f'{type(e).__name__}: {e}',
-                       'want': {repr(k): v for k, v in want.items()}},
-                      mechanism='call-empty-input-iterator')
+        _report_characterised(
+            ctx, 'call-empty-input-iterator', 'raised_on_empty_stream',
+            dict(case, _obs=obs),
+            {'obs': obs, 'error': f'{type(e).__name__}: {e}',
+             'want': {repr(k): v for k, v in want.items()}})
       else:
         cause = e.__cause__
         ctx.violation('raised', dict(case, _obs=obs),
@@ -625,16 +635,15 @@ def check_case(ctx, case, want_override=None, tag=None):
     if d:
       kind, key, w, g = d[0]
       mech = f'{kind}@{obs}/{_slicer_kind_of(case, key)}'
+      detail = {'obs': obs, 'key': repr(key), 'want': w, 'got': g, 'n_diffs': len(d),
+                'kinds': sorted({x[0] for x in d}), 'cut': arg}
       if self_output and not w and 'tree.NullMap object' in repr(g):
         # Key.SELF output whose value is falsy (0, [], {}): the root-level value is
         # lost when the per-runner result is flattened with TreeMapView.items().
-        mech = 'self-output-falsy-result-nullmap'
-        ctx.count('viol:' + mech)
-      ctx.violation(kind, dict(case, _obs=obs),
-                    {'obs': obs, 'key': repr(key), 'want': w, 'got': g,
-                     'n_diffs': len(d), 'kinds': sorted({x[0] for x in d}),
-                     'cut': arg},
-                    mechanism=mech)
+        _report_characterised(ctx, 'self-output-falsy-result-nullmap', kind,
+                              dict(case, _obs=obs), detail)
+      else:
+        ctx.violation(kind, dict(case, _obs=obs), detail, mechanism=mech)
   # Unsliced part must not depend on the slicer set.
   if case['slicers']:
     twins = [('no_slicers', None)]
